@@ -9,7 +9,9 @@
           document back; then, on each loaded CAS, the operations `pmv` (per annotation: remove / assign offsets /
           add to another view) and the further sofa_string assignments `post` (per view) and
           the begin/end found in the documents written from the loaded CAS (XMI from the XMI-loaded one, JSON
-          from the JSON-loaded one).  An annotation that changed its view before the first save is given as
+          from the JSON-loaded one), and what get_covered_text() of each loaded annotation returns after these
+          changes (`xmi_c2`, `json_c2`: the text of the view must be the one assigned last, also for an annotation
+          that is a member of no view, whatever the document said about views).  An annotation that changed its view before the first save is given as
           `ann_run (mkDann v b e) ops` (Offsets.ann_run: the model of Cas.add / Cas.remove / attribute assignment).
           The case does not say how the loaded documents were laid out (order of the elements / of the entries of
           %FEATURE_STRUCTURES, sofas before or after the annotations): the model of the readers does not depend on it.
@@ -25,7 +27,8 @@ Inductive case :=
 | Hist (init : option text) (sets : list (option text)) (qs : list (option Z)) (p2e_obs e2p_obs : list (option Z))
 | Doc (views : list (list (option text))) (anns : list dann)
       (xmi_w json_w : list obs_w) (xmi_l json_l : list obs_l)
-      (pmv : list (list aop)) (post : list (list (option text))) (xmi_w2 json_w2 : list obs_w).
+      (pmv : list (list aop)) (post : list (list (option text))) (xmi_w2 json_w2 : list obs_w)
+      (xmi_c2 json_c2 : list (option text)).
 
 Definition opt_eqb {A} (eqb : A -> A -> bool) (a b : option A) : bool :=
   match a, b with Some x, Some y => eqb x y | None, None => true | _, _ => false end.
@@ -49,6 +52,13 @@ Definition model_rewritten (load : option text -> sofa) (ss : list sofa) (anns :
   let anns' := run_moves (map (fun a => read_ann ss' (write_ann ss a)) anns) pmv in
   let ss2 := map (fun sp => fold_left sofa_set (snd sp) (fst sp)) (combine ss' post) in
   model_written ss2 anns'.
+(* ... and get_covered_text() of the same annotations at that moment: a slice of the text their view has NOW *)
+Definition model_recovered (load : option text -> sofa) (ss : list sofa) (anns : list dann) (pmv : list (list aop))
+                           (post : list (list (option text))) : list (option text) :=
+  let ss' := map (fun s => load (s_text s)) ss in
+  let anns' := run_moves (map (fun a => read_ann ss' (write_ann ss a)) anns) pmv in
+  let ss2 := map (fun sp => fold_left sofa_set (snd sp) (fst sp)) (combine ss' post) in
+  map (covered_text ss2) anns'.
 
 Definition check_case (c : case) : bool :=
   match c with
@@ -61,14 +71,16 @@ Definition check_case (c : case) : bool :=
       let s := sofa_run init sets in
       list_eqb (opt_eqb Z.eqb) (map (p2e (s_tbl s)) qs) po &&
       list_eqb (opt_eqb Z.eqb) (map (e2p (s_tbl s)) qs) eo
-  | Doc views anns xw jw xl jl pmv post xw2 jw2 =>
+  | Doc views anns xw jw xl jl pmv post xw2 jw2 xc2 jc2 =>
       let ss := doc_sofas views in
       list_eqb obs_w_eqb (model_written ss anns) xw &&
       list_eqb obs_w_eqb (model_written ss anns) jw &&
       list_eqb obs_l_eqb (model_loaded load_sofa_xmi ss anns) xl &&
       list_eqb obs_l_eqb (model_loaded load_sofa_json ss anns) jl &&
       list_eqb obs_w_eqb (model_rewritten load_sofa_xmi ss anns pmv post) xw2 &&
-      list_eqb obs_w_eqb (model_rewritten load_sofa_json ss anns pmv post) jw2
+      list_eqb obs_w_eqb (model_rewritten load_sofa_json ss anns pmv post) jw2 &&
+      list_eqb (opt_eqb text_eqb) (model_recovered load_sofa_xmi ss anns pmv post) xc2 &&
+      list_eqb (opt_eqb text_eqb) (model_recovered load_sofa_json ss anns pmv post) jc2
   end.
 
 (* premises of the theorems in Props/C03.v: the table theorems hold for every text; the document theorems
@@ -77,5 +89,5 @@ Definition premises (c : case) : bool :=
   match c with
   | Table _ _ _ _ => true
   | Hist init sets _ _ _ => match s_text (sofa_run init sets) with Some _ => true | None => false end
-  | Doc views anns _ _ _ _ _ _ _ _ => forallb (ann_okb (doc_sofas views)) anns
+  | Doc views anns _ _ _ _ _ _ _ _ _ _ => forallb (ann_okb (doc_sofas views)) anns
   end.
